@@ -1,0 +1,651 @@
+//go:build verif
+
+package sftp
+
+// Add-only instrumentation for the /verif correspondence harness: both packet codecs behind one
+// logical packet value, and the framing functions. Compiled only with the build tag "verif".
+
+import (
+	"bytes"
+	"errors"
+	"fmt"
+	"io"
+
+	sshfx "github.com/pkg/sftp/internal/encoding/ssh/filexfer"
+	"github.com/pkg/sftp/internal/encoding/ssh/filexfer/openssh"
+)
+
+// VerifAttrs is a logical attribute block.
+type VerifAttrs struct {
+	Flags                        uint32
+	Size                         uint64
+	UID, GID, Perm, Atime, Mtime uint32
+	Ext                          [][2]string
+}
+
+// VerifName is one NAME entry.
+type VerifName struct {
+	Name, Long string
+	Attrs      VerifAttrs
+}
+
+// VerifPacket is a logical packet; which fields are meaningful depends on Kind.
+type VerifPacket struct {
+	Kind       string
+	ID         uint32
+	S1, S2     string
+	N1, N2, N3 uint64
+	Data       []byte
+	Raw        []byte // attribute body as raw bytes (HasRaw)
+	HasRaw     bool
+	Attrs      *VerifAttrs // structured attribute body
+	Pairs      [][2]string
+	Names      []VerifName
+	Vals       []uint64
+}
+
+func (a *VerifAttrs) fileStat() *FileStat {
+	fs := &FileStat{Size: a.Size, Mode: a.Perm, Mtime: a.Mtime, Atime: a.Atime, UID: a.UID, GID: a.GID}
+	for _, e := range a.Ext {
+		fs.Extended = append(fs.Extended, StatExtended{ExtType: e[0], ExtData: e[1]})
+	}
+	return fs
+}
+
+func verifAttrsFromStat(flags uint32, fs *FileStat) VerifAttrs {
+	a := VerifAttrs{Flags: flags, Size: fs.Size, UID: fs.UID, GID: fs.GID, Perm: fs.Mode, Atime: fs.Atime, Mtime: fs.Mtime}
+	for _, e := range fs.Extended {
+		a.Ext = append(a.Ext, [2]string{e.ExtType, e.ExtData})
+	}
+	return a
+}
+
+func (a *VerifAttrs) sshfx() sshfx.Attributes {
+	x := sshfx.Attributes{Flags: a.Flags, Size: a.Size, UID: a.UID, GID: a.GID, Permissions: sshfx.FileMode(a.Perm), ATime: a.Atime, MTime: a.Mtime}
+	for _, e := range a.Ext {
+		x.ExtendedAttributes = append(x.ExtendedAttributes, sshfx.ExtendedAttribute{Type: e[0], Data: e[1]})
+	}
+	return x
+}
+
+func verifAttrsFromSshfx(x *sshfx.Attributes) VerifAttrs {
+	a := VerifAttrs{Flags: x.Flags, Size: x.Size, UID: x.UID, GID: x.GID, Perm: uint32(x.Permissions), Atime: x.ATime, Mtime: x.MTime}
+	for _, e := range x.ExtendedAttributes {
+		a.Ext = append(a.Ext, [2]string{e.Type, e.Data})
+	}
+	return a
+}
+
+type verifAttrInfo struct{ a VerifAttrs }
+
+func (p *VerifPacket) abodyA() any {
+	if p.HasRaw {
+		return p.Raw
+	}
+	if p.Attrs != nil {
+		return p.Attrs.fileStat()
+	}
+	return []byte(nil)
+}
+
+type verifMarshaler interface {
+	MarshalBinary() ([]byte, error)
+}
+
+// verifStatResponse marshals like sshFxpStatResponse but from explicit flags and values
+// (sshFxpStatResponse derives them from an os.FileInfo).
+type verifStatResponse struct {
+	ID    uint32
+	flags uint32
+	fs    *FileStat
+}
+
+func (p *verifStatResponse) MarshalBinary() ([]byte, error) {
+	b := make([]byte, 4, 9)
+	b = append(b, sshFxpAttrs)
+	b = marshalUint32(b, p.ID)
+	b = marshalUint32(b, p.flags)
+	b = marshalFileStat(b, p.flags, p.fs)
+	return b, nil
+}
+
+type verifRawAttrs struct {
+	flags uint32
+	fs    *FileStat
+}
+
+// VerifErrKind maps an error of either codec to a small enum.
+func VerifErrKind(err error) string {
+	switch {
+	case err == nil:
+		return "ok"
+	case errors.Is(err, errShortPacket), errors.Is(err, sshfx.ErrShortPacket):
+		return "short"
+	case errors.Is(err, errLongPacket), errors.Is(err, sshfx.ErrLongPacket):
+		return "long"
+	case errors.Is(err, errUnknownExtendedPacket):
+		return "unknownext"
+	case errors.Is(err, io.ErrUnexpectedEOF):
+		return "unexpectedeof"
+	case errors.Is(err, io.EOF):
+		return "eof"
+	}
+	var ue *unexpectedPacketErr
+	if errors.As(err, &ue) {
+		return "unexpectedtype"
+	}
+	var ui *unexpectedIDErr
+	if errors.As(err, &ui) {
+		return "idmismatch"
+	}
+	var uv *unexpectedVersionErr
+	if errors.As(err, &uv) {
+		return "version"
+	}
+	var se *StatusError
+	if errors.As(err, &se) {
+		return fmt.Sprintf("status:%x", se.Code)
+	}
+	if len(err.Error()) >= 21 && (err.Error()[:21] == "unhandled packet type" || err.Error()[:21] == "unexpected request pa") {
+		return "unhandledtype"
+	}
+	return "other"
+}
+
+func (p *VerifPacket) toA() (verifMarshaler, error) {
+	switch p.Kind {
+	case "init":
+		x := &sshFxInitPacket{Version: uint32(p.N1)}
+		for _, e := range p.Pairs {
+			x.Extensions = append(x.Extensions, extensionPair{e[0], e[1]})
+		}
+		return x, nil
+	case "version":
+		x := &sshFxVersionPacket{Version: uint32(p.N1)}
+		for _, e := range p.Pairs {
+			x.Extensions = append(x.Extensions, sshExtensionPair{e[0], e[1]})
+		}
+		return x, nil
+	case "open":
+		return &sshFxpOpenPacket{ID: p.ID, Path: p.S1, Pflags: uint32(p.N1), Flags: uint32(p.N2), Attrs: p.abodyA()}, nil
+	case "close":
+		return &sshFxpClosePacket{ID: p.ID, Handle: p.S1}, nil
+	case "read":
+		return &sshFxpReadPacket{ID: p.ID, Handle: p.S1, Offset: p.N1, Len: uint32(p.N2)}, nil
+	case "write":
+		return &sshFxpWritePacket{ID: p.ID, Handle: p.S1, Offset: p.N1, Length: uint32(len(p.Data)), Data: p.Data}, nil
+	case "lstat":
+		return &sshFxpLstatPacket{ID: p.ID, Path: p.S1}, nil
+	case "fstat":
+		return &sshFxpFstatPacket{ID: p.ID, Handle: p.S1}, nil
+	case "setstat":
+		return &sshFxpSetstatPacket{ID: p.ID, Path: p.S1, Flags: uint32(p.N2), Attrs: p.abodyA()}, nil
+	case "fsetstat":
+		return &sshFxpFsetstatPacket{ID: p.ID, Handle: p.S1, Flags: uint32(p.N2), Attrs: p.abodyA()}, nil
+	case "opendir":
+		return &sshFxpOpendirPacket{ID: p.ID, Path: p.S1}, nil
+	case "readdir":
+		return &sshFxpReaddirPacket{ID: p.ID, Handle: p.S1}, nil
+	case "remove":
+		return &sshFxpRemovePacket{ID: p.ID, Filename: p.S1}, nil
+	case "mkdir":
+		return &sshFxpMkdirPacket{ID: p.ID, Path: p.S1, Flags: uint32(p.N2)}, nil
+	case "rmdir":
+		return &sshFxpRmdirPacket{ID: p.ID, Path: p.S1}, nil
+	case "realpath":
+		return &sshFxpRealpathPacket{ID: p.ID, Path: p.S1}, nil
+	case "stat":
+		return &sshFxpStatPacket{ID: p.ID, Path: p.S1}, nil
+	case "rename":
+		return &sshFxpRenamePacket{ID: p.ID, Oldpath: p.S1, Newpath: p.S2}, nil
+	case "readlink":
+		return &sshFxpReadlinkPacket{ID: p.ID, Path: p.S1}, nil
+	case "symlink":
+		return &sshFxpSymlinkPacket{ID: p.ID, Targetpath: p.S1, Linkpath: p.S2}, nil
+	case "statvfs":
+		return &sshFxpStatvfsPacket{ID: p.ID, Path: p.S1}, nil
+	case "posixrename":
+		return &sshFxpPosixRenamePacket{ID: p.ID, Oldpath: p.S1, Newpath: p.S2}, nil
+	case "hardlink":
+		return &sshFxpHardlinkPacket{ID: p.ID, Oldpath: p.S1, Newpath: p.S2}, nil
+	case "fsync":
+		return &sshFxpFsyncPacket{ID: p.ID, Handle: p.S1}, nil
+	case "status":
+		return &sshFxpStatusPacket{ID: p.ID, StatusError: StatusError{Code: uint32(p.N1), msg: p.S1, lang: p.S2}}, nil
+	case "handle":
+		return &sshFxpHandlePacket{ID: p.ID, Handle: p.S1}, nil
+	case "data":
+		d := make([]byte, len(p.Data), len(p.Data)+dataHeaderLen)
+		copy(d, p.Data)
+		return &sshFxpDataPacket{ID: p.ID, Length: uint32(len(p.Data)), Data: d}, nil
+	case "name":
+		x := &sshFxpNamePacket{ID: p.ID}
+		for i := range p.Names {
+			e := &p.Names[i]
+			x.NameAttrs = append(x.NameAttrs, &sshFxpNameAttr{Name: e.Name, LongName: e.Long,
+				Attrs: []any{e.Attrs.Flags, marshalFileStat(nil, e.Attrs.Flags, e.Attrs.fileStat())}})
+		}
+		return x, nil
+	case "attrs":
+		return &verifStatResponse{ID: p.ID, flags: p.Attrs.Flags, fs: p.Attrs.fileStat()}, nil
+	case "statvfsreply":
+		if len(p.Vals) != 11 {
+			return nil, errors.New("statvfsreply needs 11 values")
+		}
+		v := p.Vals
+		return &StatVFS{ID: p.ID, Bsize: v[0], Frsize: v[1], Blocks: v[2], Bfree: v[3], Bavail: v[4], Files: v[5], Ffree: v[6], Favail: v[7], Fsid: v[8], Flag: v[9], Namemax: v[10]}, nil
+	}
+	return nil, errors.New("codec A cannot express " + p.Kind)
+}
+
+// VerifEncA returns the bytes sendPacket writes for the codec-A form of p.
+func VerifEncA(p *VerifPacket) ([]byte, error) {
+	m, err := p.toA()
+	if err != nil {
+		return nil, err
+	}
+	var buf bytes.Buffer
+	if err := sendPacket(&buf, m); err != nil {
+		return nil, err
+	}
+	return buf.Bytes(), nil
+}
+
+func verifFromA(pkt requestPacket) *VerifPacket {
+	switch x := pkt.(type) {
+	case *sshFxInitPacket:
+		p := &VerifPacket{Kind: "init", N1: uint64(x.Version)}
+		for _, e := range x.Extensions {
+			p.Pairs = append(p.Pairs, [2]string{e.Name, e.Data})
+		}
+		return p
+	case *sshFxpOpenPacket:
+		raw, _ := x.Attrs.([]byte)
+		return &VerifPacket{Kind: "open", ID: x.ID, S1: x.Path, N1: uint64(x.Pflags), N2: uint64(x.Flags), HasRaw: true, Raw: raw}
+	case *sshFxpClosePacket:
+		return &VerifPacket{Kind: "close", ID: x.ID, S1: x.Handle}
+	case *sshFxpReadPacket:
+		return &VerifPacket{Kind: "read", ID: x.ID, S1: x.Handle, N1: x.Offset, N2: uint64(x.Len)}
+	case *sshFxpWritePacket:
+		return &VerifPacket{Kind: "write", ID: x.ID, S1: x.Handle, N1: x.Offset, Data: x.Data, N2: uint64(x.Length)}
+	case *sshFxpLstatPacket:
+		return &VerifPacket{Kind: "lstat", ID: x.ID, S1: x.Path}
+	case *sshFxpFstatPacket:
+		return &VerifPacket{Kind: "fstat", ID: x.ID, S1: x.Handle}
+	case *sshFxpSetstatPacket:
+		raw, _ := x.Attrs.([]byte)
+		return &VerifPacket{Kind: "setstat", ID: x.ID, S1: x.Path, N2: uint64(x.Flags), HasRaw: true, Raw: raw}
+	case *sshFxpFsetstatPacket:
+		raw, _ := x.Attrs.([]byte)
+		return &VerifPacket{Kind: "fsetstat", ID: x.ID, S1: x.Handle, N2: uint64(x.Flags), HasRaw: true, Raw: raw}
+	case *sshFxpOpendirPacket:
+		return &VerifPacket{Kind: "opendir", ID: x.ID, S1: x.Path}
+	case *sshFxpReaddirPacket:
+		return &VerifPacket{Kind: "readdir", ID: x.ID, S1: x.Handle}
+	case *sshFxpRemovePacket:
+		return &VerifPacket{Kind: "remove", ID: x.ID, S1: x.Filename}
+	case *sshFxpMkdirPacket:
+		return &VerifPacket{Kind: "mkdir", ID: x.ID, S1: x.Path, N2: uint64(x.Flags), HasRaw: true}
+	case *sshFxpRmdirPacket:
+		return &VerifPacket{Kind: "rmdir", ID: x.ID, S1: x.Path}
+	case *sshFxpRealpathPacket:
+		return &VerifPacket{Kind: "realpath", ID: x.ID, S1: x.Path}
+	case *sshFxpStatPacket:
+		return &VerifPacket{Kind: "stat", ID: x.ID, S1: x.Path}
+	case *sshFxpRenamePacket:
+		return &VerifPacket{Kind: "rename", ID: x.ID, S1: x.Oldpath, S2: x.Newpath}
+	case *sshFxpReadlinkPacket:
+		return &VerifPacket{Kind: "readlink", ID: x.ID, S1: x.Path}
+	case *sshFxpSymlinkPacket:
+		return &VerifPacket{Kind: "symlink", ID: x.ID, S1: x.Targetpath, S2: x.Linkpath}
+	case *sshFxpExtendedPacket:
+		switch s := x.SpecificPacket.(type) {
+		case *sshFxpExtendedPacketStatVFS:
+			return &VerifPacket{Kind: "statvfs", ID: s.ID, S1: s.Path}
+		case *sshFxpExtendedPacketPosixRename:
+			return &VerifPacket{Kind: "posixrename", ID: s.ID, S1: s.Oldpath, S2: s.Newpath}
+		case *sshFxpExtendedPacketHardlink:
+			return &VerifPacket{Kind: "hardlink", ID: s.ID, S1: s.Oldpath, S2: s.Newpath}
+		}
+		return &VerifPacket{Kind: "extother", ID: x.ID, S1: x.ExtendedRequest}
+	}
+	return nil
+}
+
+// VerifDecA runs makePacket on (type, payload). Returns the decoded packet (nil when none), the error kind,
+// and whether the decoder panicked.
+func VerifDecA(typ byte, payload []byte) (p *VerifPacket, errKind string, panicked bool) {
+	defer func() {
+		if r := recover(); r != nil {
+			p, errKind, panicked = nil, "panic", true
+		}
+	}()
+	pkt, err := makePacket(rxPacket{fxp(typ), payload})
+	errKind = VerifErrKind(err)
+	if err != nil && errKind != "unknownext" {
+		return nil, errKind, false
+	}
+	if pkt == nil {
+		return nil, errKind, false
+	}
+	p = verifFromA(pkt)
+	if p != nil && p.Kind == "extother" {
+		// payload after id and name
+		if len(payload) >= 8+len(p.S1) {
+			p.Data = payload[8+len(p.S1):]
+		}
+	}
+	return p, errKind, false
+}
+
+func (p *VerifPacket) battrs() (sshfx.Attributes, error) {
+	if p.Attrs == nil {
+		return sshfx.Attributes{}, errors.New("codec B needs structured attributes")
+	}
+	return p.Attrs.sshfx(), nil
+}
+
+// VerifEncB marshals the codec-B form of p (ComposePacket(MarshalPacket(id, nil))).
+func VerifEncB(p *VerifPacket) ([]byte, error) {
+	var req sshfx.PacketMarshaller
+	switch p.Kind {
+	case "init":
+		x := &sshfx.InitPacket{Version: uint32(p.N1)}
+		for _, e := range p.Pairs {
+			x.Extensions = append(x.Extensions, &sshfx.ExtensionPair{Name: e[0], Data: e[1]})
+		}
+		return x.MarshalBinary()
+	case "version":
+		x := &sshfx.VersionPacket{Version: uint32(p.N1)}
+		for _, e := range p.Pairs {
+			x.Extensions = append(x.Extensions, &sshfx.ExtensionPair{Name: e[0], Data: e[1]})
+		}
+		return x.MarshalBinary()
+	case "open":
+		a, err := p.battrs()
+		if err != nil {
+			return nil, err
+		}
+		req = &sshfx.OpenPacket{Filename: p.S1, PFlags: uint32(p.N1), Attrs: a}
+	case "close":
+		req = &sshfx.ClosePacket{Handle: p.S1}
+	case "read":
+		req = &sshfx.ReadPacket{Handle: p.S1, Offset: p.N1, Length: uint32(p.N2)}
+	case "write":
+		req = &sshfx.WritePacket{Handle: p.S1, Offset: p.N1, Data: p.Data}
+	case "lstat":
+		req = &sshfx.LStatPacket{Path: p.S1}
+	case "fstat":
+		req = &sshfx.FStatPacket{Handle: p.S1}
+	case "setstat":
+		a, err := p.battrs()
+		if err != nil {
+			return nil, err
+		}
+		req = &sshfx.SetstatPacket{Path: p.S1, Attrs: a}
+	case "fsetstat":
+		a, err := p.battrs()
+		if err != nil {
+			return nil, err
+		}
+		req = &sshfx.FSetstatPacket{Handle: p.S1, Attrs: a}
+	case "opendir":
+		req = &sshfx.OpenDirPacket{Path: p.S1}
+	case "readdir":
+		req = &sshfx.ReadDirPacket{Handle: p.S1}
+	case "remove":
+		req = &sshfx.RemovePacket{Path: p.S1}
+	case "mkdir":
+		a, err := p.battrs()
+		if err != nil {
+			return nil, err
+		}
+		req = &sshfx.MkdirPacket{Path: p.S1, Attrs: a}
+	case "rmdir":
+		req = &sshfx.RmdirPacket{Path: p.S1}
+	case "realpath":
+		req = &sshfx.RealPathPacket{Path: p.S1}
+	case "stat":
+		req = &sshfx.StatPacket{Path: p.S1}
+	case "rename":
+		req = &sshfx.RenamePacket{OldPath: p.S1, NewPath: p.S2}
+	case "readlink":
+		req = &sshfx.ReadLinkPacket{Path: p.S1}
+	case "symlink":
+		req = &sshfx.SymlinkPacket{TargetPath: p.S1, LinkPath: p.S2}
+	case "statvfs":
+		req = &openssh.StatVFSExtendedPacket{Path: p.S1}
+	case "posixrename":
+		req = &openssh.POSIXRenameExtendedPacket{OldPath: p.S1, NewPath: p.S2}
+	case "hardlink":
+		req = &openssh.HardlinkExtendedPacket{OldPath: p.S1, NewPath: p.S2}
+	case "fsync":
+		req = &openssh.FSyncExtendedPacket{Handle: p.S1}
+	case "extother":
+		req = &sshfx.ExtendedPacket{ExtendedRequest: p.S1, Data: sshfx.NewBuffer(p.Data)}
+	case "status":
+		req = &sshfx.StatusPacket{StatusCode: sshfx.Status(p.N1), ErrorMessage: p.S1, LanguageTag: p.S2}
+	case "handle":
+		req = &sshfx.HandlePacket{Handle: p.S1}
+	case "data":
+		req = &sshfx.DataPacket{Data: p.Data}
+	case "name":
+		x := &sshfx.NamePacket{}
+		for i := range p.Names {
+			e := &p.Names[i]
+			x.Entries = append(x.Entries, &sshfx.NameEntry{Filename: e.Name, Longname: e.Long, Attrs: e.Attrs.sshfx()})
+		}
+		req = x
+	case "attrs":
+		req = &sshfx.AttrsPacket{Attrs: p.Attrs.sshfx()}
+	case "statvfsreply":
+		if len(p.Vals) != 11 {
+			return nil, errors.New("statvfsreply needs 11 values")
+		}
+		v := p.Vals
+		req = &openssh.StatVFSExtendedReplyPacket{BlockSize: v[0], FragmentSize: v[1], Blocks: v[2], BlocksFree: v[3], BlocksAvail: v[4],
+			Files: v[5], FilesFree: v[6], FilesAvail: v[7], FilesystemID: v[8], MountFlags: v[9], MaxNameLength: v[10]}
+	default:
+		return nil, errors.New("codec B cannot express " + p.Kind)
+	}
+	return sshfx.ComposePacket(req.MarshalPacket(p.ID, nil))
+}
+
+// VerifDecBRequest runs RequestPacket.UnmarshalBinary on a frame body (type byte first).
+func VerifDecBRequest(body []byte) (p *VerifPacket, errKind string, panicked bool) {
+	defer func() {
+		if r := recover(); r != nil {
+			p, errKind, panicked = nil, "panic", true
+		}
+	}()
+	var rp sshfx.RequestPacket
+	err := rp.UnmarshalBinary(body)
+	if err != nil {
+		return nil, VerifErrKind(err), false
+	}
+	id := rp.RequestID
+	switch x := rp.Request.(type) {
+	case *sshfx.OpenPacket:
+		a := verifAttrsFromSshfx(&x.Attrs)
+		p = &VerifPacket{Kind: "open", ID: id, S1: x.Filename, N1: uint64(x.PFlags), N2: uint64(a.Flags), Attrs: &a}
+	case *sshfx.ClosePacket:
+		p = &VerifPacket{Kind: "close", ID: id, S1: x.Handle}
+	case *sshfx.ReadPacket:
+		p = &VerifPacket{Kind: "read", ID: id, S1: x.Handle, N1: x.Offset, N2: uint64(x.Length)}
+	case *sshfx.WritePacket:
+		p = &VerifPacket{Kind: "write", ID: id, S1: x.Handle, N1: x.Offset, Data: x.Data}
+	case *sshfx.LStatPacket:
+		p = &VerifPacket{Kind: "lstat", ID: id, S1: x.Path}
+	case *sshfx.FStatPacket:
+		p = &VerifPacket{Kind: "fstat", ID: id, S1: x.Handle}
+	case *sshfx.SetstatPacket:
+		a := verifAttrsFromSshfx(&x.Attrs)
+		p = &VerifPacket{Kind: "setstat", ID: id, S1: x.Path, N2: uint64(a.Flags), Attrs: &a}
+	case *sshfx.FSetstatPacket:
+		a := verifAttrsFromSshfx(&x.Attrs)
+		p = &VerifPacket{Kind: "fsetstat", ID: id, S1: x.Handle, N2: uint64(a.Flags), Attrs: &a}
+	case *sshfx.OpenDirPacket:
+		p = &VerifPacket{Kind: "opendir", ID: id, S1: x.Path}
+	case *sshfx.ReadDirPacket:
+		p = &VerifPacket{Kind: "readdir", ID: id, S1: x.Handle}
+	case *sshfx.RemovePacket:
+		p = &VerifPacket{Kind: "remove", ID: id, S1: x.Path}
+	case *sshfx.MkdirPacket:
+		a := verifAttrsFromSshfx(&x.Attrs)
+		p = &VerifPacket{Kind: "mkdir", ID: id, S1: x.Path, N2: uint64(a.Flags), Attrs: &a}
+	case *sshfx.RmdirPacket:
+		p = &VerifPacket{Kind: "rmdir", ID: id, S1: x.Path}
+	case *sshfx.RealPathPacket:
+		p = &VerifPacket{Kind: "realpath", ID: id, S1: x.Path}
+	case *sshfx.StatPacket:
+		p = &VerifPacket{Kind: "stat", ID: id, S1: x.Path}
+	case *sshfx.RenamePacket:
+		p = &VerifPacket{Kind: "rename", ID: id, S1: x.OldPath, S2: x.NewPath}
+	case *sshfx.ReadLinkPacket:
+		p = &VerifPacket{Kind: "readlink", ID: id, S1: x.Path}
+	case *sshfx.SymlinkPacket:
+		p = &VerifPacket{Kind: "symlink", ID: id, S1: x.TargetPath, S2: x.LinkPath}
+	case *sshfx.ExtendedPacket:
+		p = &VerifPacket{Kind: "extother", ID: id, S1: x.ExtendedRequest}
+		if b, ok := x.Data.(*sshfx.Buffer); ok {
+			p.Data = b.Bytes()
+		} else {
+			p.Kind = "extregistered"
+		}
+	default:
+		return nil, "other", false
+	}
+	return p, "ok", false
+}
+
+// VerifDecBResponse decodes a response frame body (type byte first) with the codec-B response types.
+func VerifDecBResponse(body []byte) (p *VerifPacket, errKind string, panicked bool) {
+	defer func() {
+		if r := recover(); r != nil {
+			p, errKind, panicked = nil, "panic", true
+		}
+	}()
+	var raw sshfx.RawPacket
+	if err := raw.UnmarshalBinary(body); err != nil {
+		return nil, VerifErrKind(err), false
+	}
+	id := raw.RequestID
+	buf := &raw.Data
+	var err error
+	switch raw.PacketType {
+	case sshfx.PacketTypeStatus:
+		var x sshfx.StatusPacket
+		err = x.UnmarshalPacketBody(buf)
+		p = &VerifPacket{Kind: "status", ID: id, N1: uint64(x.StatusCode), S1: x.ErrorMessage, S2: x.LanguageTag}
+	case sshfx.PacketTypeHandle:
+		var x sshfx.HandlePacket
+		err = x.UnmarshalPacketBody(buf)
+		p = &VerifPacket{Kind: "handle", ID: id, S1: x.Handle}
+	case sshfx.PacketTypeData:
+		var x sshfx.DataPacket
+		err = x.UnmarshalPacketBody(buf)
+		p = &VerifPacket{Kind: "data", ID: id, Data: x.Data}
+	case sshfx.PacketTypeName:
+		var x sshfx.NamePacket
+		err = x.UnmarshalPacketBody(buf)
+		p = &VerifPacket{Kind: "name", ID: id}
+		for _, e := range x.Entries {
+			p.Names = append(p.Names, VerifName{Name: e.Filename, Long: e.Longname, Attrs: verifAttrsFromSshfx(&e.Attrs)})
+		}
+	case sshfx.PacketTypeAttrs:
+		var x sshfx.AttrsPacket
+		err = x.UnmarshalPacketBody(buf)
+		a := verifAttrsFromSshfx(&x.Attrs)
+		p = &VerifPacket{Kind: "attrs", ID: id, Attrs: &a}
+	case sshfx.PacketTypeExtendedReply:
+		var x sshfx.ExtendedReplyPacket
+		err = x.UnmarshalPacketBody(buf)
+		p = &VerifPacket{Kind: "extreplyother", ID: id}
+		if b, ok := x.Data.(*sshfx.Buffer); ok {
+			p.Data = b.Bytes()
+		}
+	default:
+		return nil, "unhandledtype", false
+	}
+	if err != nil {
+		return nil, VerifErrKind(err), false
+	}
+	return p, "ok", false
+}
+
+type verifCountReader struct {
+	r io.Reader
+	n int
+}
+
+func (c *verifCountReader) Read(p []byte) (int, error) {
+	n, err := c.r.Read(p)
+	c.n += n
+	return n, err
+}
+
+// VerifRecvPacket runs recvPacket (codec A framing) on a reader that holds exactly input.
+func VerifRecvPacket(input []byte, withAlloc bool) (typ byte, payload []byte, errKind string, consumed int, panicked bool) {
+	defer func() {
+		if r := recover(); r != nil {
+			errKind, panicked = "panic", true
+		}
+	}()
+	var alloc *allocator
+	if withAlloc {
+		alloc = newAllocator()
+	}
+	cr := &verifCountReader{r: bytes.NewReader(input)}
+	t, pl, err := recvPacket(cr, alloc, 1)
+	return byte(t), append([]byte(nil), pl...), VerifErrKind(err), cr.n, false
+}
+
+// VerifReadPacketB runs the codec-B frame reader (RawPacket.ReadFrom) on a reader that holds exactly input.
+func VerifReadPacketB(input []byte, maxLen uint32) (typ byte, payload []byte, errKind string, consumed int, panicked bool) {
+	defer func() {
+		if r := recover(); r != nil {
+			errKind, panicked = "panic", true
+		}
+	}()
+	cr := &verifCountReader{r: bytes.NewReader(input)}
+	var raw sshfx.RawPacket
+	err := raw.ReadFrom(cr, nil, maxLen)
+	if err != nil {
+		return 0, nil, VerifErrKind(err), cr.n, false
+	}
+	id := raw.RequestID
+	pl := append([]byte{byte(id >> 24), byte(id >> 16), byte(id >> 8), byte(id)}, raw.Data.Bytes()...)
+	return byte(raw.PacketType), pl, "ok", cr.n, false
+}
+
+// VerifUnmarshalAttrsA runs unmarshalAttrs (flags word + unmarshalFileStat).
+func VerifUnmarshalAttrsA(b []byte) (a *VerifAttrs, rest []byte, errKind string, panicked bool) {
+	defer func() {
+		if r := recover(); r != nil {
+			a, errKind, panicked = nil, "panic", true
+		}
+	}()
+	flags, _, ferr := unmarshalUint32Safe(b)
+	fs, rest, err := unmarshalAttrs(b)
+	if err != nil || ferr != nil {
+		return nil, nil, VerifErrKind(err), false
+	}
+	x := verifAttrsFromStat(flags, fs)
+	return &x, rest, "ok", false
+}
+
+// VerifUnmarshalAttrsB runs filexfer Attributes.UnmarshalFrom.
+func VerifUnmarshalAttrsB(b []byte) (a *VerifAttrs, rest []byte, errKind string, panicked bool) {
+	defer func() {
+		if r := recover(); r != nil {
+			a, errKind, panicked = nil, "panic", true
+		}
+	}()
+	buf := sshfx.NewBuffer(append([]byte(nil), b...))
+	var x sshfx.Attributes
+	if err := x.UnmarshalFrom(buf); err != nil {
+		return nil, nil, VerifErrKind(err), false
+	}
+	y := verifAttrsFromSshfx(&x)
+	return &y, buf.Bytes(), "ok", false
+}
